@@ -360,6 +360,31 @@ def build(cfg, run):
         edges[j] = obj
         run.edge_idx[id(obj)] = j
 
+    if cfg.get("via") == "chain":
+        # built with the library's own wiring helpers (constructs/chain.py): constant delays, buffers between machines
+        from factorysimpy.constructs.chain import connect_chain_with_source_sink, connect_nodes_with_buffers
+        ch = cfg["chain"]
+        ns, es, _src, _snk = connect_chain_with_source_sink(
+            env, ch["count"], Machine, Buffer,
+            node_kwargs_list=[{"processing_delay": ch["pd"][k % len(ch["pd"])] / float(Q), "blocking": ch.get("blocking", True),
+                               "work_capacity": ch.get("wc", 1)} for k in range(ch["count"])],
+            edge_kwargs_list=[{"capacity": ch["cap"], "delay": ch.get("bdelay", 0) / float(Q)} for _ in range(ch["count"] + 1)],
+            source_cls=Source, sink_cls=Sink,
+            source_kwargs={"inter_arrival_time": ch["iat"] / float(Q), "blocking": ch.get("sblocking", True)}, sink_kwargs={})
+        connect_nodes_with_buffers(ns, es, None, None)
+        for i, obj in enumerate(ns):
+            obj.stats = CounterDict(obj.stats, run, i)
+            nodes[i] = obj
+            run.node_idx[id(obj)] = i
+        for j, obj in enumerate(es):
+            edges[j] = obj
+            run.edge_idx[id(obj)] = j
+            run.store_edge[id(obj.inbuiltstore)] = j
+        run.nodes = nodes
+        run.edges = edges
+        for p, name, owner, t0 in env.procs:
+            run.proc_info[id(p)] = (len(run.proc_info) + 1, run.node_idx.get(id(owner), -1), name)
+        return env
     order = cfg.get("order") or ([["n", i] for i in range(len(nodes))] + [["e", j] for j in range(len(edges))])
     for what, i in order:
         (mk_node if what == "n" else mk_edge)(i)
